@@ -417,7 +417,8 @@ PROPS = {
         "lean": "SymfcModel.Props.C14", "gen": [],
         "corr": [{"fn": C.corr_cell_index, "quick": {"n_cases": 45}, "thorough": {"n_cases": 300}},
                  {"fn": S.corr_coset, "quick": {"n_cases": 18}, "thorough": {"n_cases": 120}},
-                 {"fn": corr_sgperm.corr_sg_perm, "quick": {"n_cases": 60}, "thorough": {"n_cases": 600}}],
+                 {"fn": corr_sgperm.corr_sg_perm, "quick": {"n_cases": 60}, "thorough": {"n_cases": 600}},
+                 {"fn": corr_sgperm.corr_sg_full, "quick": {"n_cases": 60}, "thorough": {"n_cases": 800}}],
         "oracle": [{"name": "sg_perms", "fn": o_sg, "quick": {"n": 24}, "thorough": {"n": 120}, "search": {"n": 60}}],
         "trusted": [KERNELS["spglib"], KERNELS["float"], "float tolerance matching of positions (symprec, rounding) is not modelled"],
     },
